@@ -132,6 +132,31 @@ reg('C13',
     ' blinds (statement silent there).',
     'DESIGN.md 4 C13')
 
+reg('C10',
+    'Hypothesis-generated histories vs a per-street dealing model (refdeal);'
+    ' facing stability invariant after every operation',
+    'Model-based generated-history test: per street instance burn, hole'
+    ' cards and facing per player, community cards, draws, stud fall-back,'
+    ' automated dealing order, no betting while dealing pending.',
+    'Street instance boundaries follow the engine\'s street_index (phases are'
+    ' C07\'s); available cards read from the public piles.',
+    'DESIGN.md 4 C10')
+reg('C11',
+    'hand-written variant table vs created states over the parameter space +'
+    ' table-parameterised betting model along Hypothesis-generated hands',
+    'Static table comparison for every generated parameterisation of the 12'
+    ' classes and the PHH codes; dynamic C03 model fed from the table.',
+    'Trusted: the table in pkv/props/c11.py.',
+    'DESIGN.md 4 C11')
+reg('C14',
+    'Hypothesis-generated all-in hands of board games: run-out offering,'
+    ' consensus rule, board structure and per-board division invariants',
+    'Generated-history test with invariants over the log and the final'
+    ' boards (independent consensus computation, shared pre-all-in cards,'
+    ' distinctness, even division).',
+    'Deck large enough for b*r boards (generator bounds r).',
+    'DESIGN.md 4 C14')
+
 NOT_APPLICABLE = {}
 
 ALL = [f'C{i:02d}' for i in range(1, 21)]
